@@ -89,6 +89,8 @@ class SolverWrapper:
     """
     # storing some defaults
     threads = 4
+    # Number of threads the process-wide HiGHS scheduler was last started with (None: not started by this wrapper)
+    _highs_scheduler_threads = None
     time_limit = float('inf')
     presolve = "choose"
     log_to_console = "false"
@@ -133,7 +135,8 @@ class SolverWrapper:
         if self.external_solver == "highs":
             self.solver = HighsCustom()
             self.solver.setOptionValue("solver", "choose")
-            self.solver.setOptionValue("threads", kwargs.get("threads", SolverWrapper.threads))
+            self.threads = kwargs.get("threads", SolverWrapper.threads)
+            self.solver.setOptionValue("threads", self.threads)
             self.solver.setOptionValue("time_limit", kwargs.get("time_limit", SolverWrapper.time_limit))
             self.solver.setOptionValue("presolve", kwargs.get("presolve", SolverWrapper.presolve))
             self.solver.setOptionValue("log_to_console", kwargs.get("log_to_console", SolverWrapper.log_to_console))
@@ -536,6 +539,13 @@ class SolverWrapper:
         # Otherwise, we call the function with a timeout
         # Apply any queued bound updates right before solving
         self._apply_pending_bound_updates()
+
+        if self.external_solver == "highs":
+            # HiGHS keeps one scheduler per process, sized by the first run: a model asking for another number of
+            # threads would refuse to run (and look unsolved), so the scheduler is reset when the number changes
+            if SolverWrapper._highs_scheduler_threads not in (None, self.threads):
+                highspy.Highs.resetGlobalScheduler(True)
+            SolverWrapper._highs_scheduler_threads = self.threads
 
         if self.time_limit == float('inf') or (not self.use_also_custom_timeout):
             self.solver.optimize()
